@@ -133,18 +133,24 @@ def check_table(rep, prog):
     tab = I.new(IL + "PTETable", [Sym("hdr")])
     pte = Sym("pte", "int")
     ents = I.obj(tab).attrs.get("entries")
+    seq0 = len(I.events)
+    nl0 = set(I.loops)
     r = I.method(tab, "get_entry", [pte])
-    loops = [L for L in I.loops.values() if L.func == IL + "PTETable.get_entry"]
+    loops = [L for lid, L in I.loops.items() if lid not in nl0]
     ok = len(loops) == 1 and loops[0].iter == ents and isinstance(r, Ite) and isinstance(r.c, Op) and r.c.op == "exists" \
         and isinstance(r.a, Op) and r.a.op == "loopret" and r.b == NONE
     if ok:
         L = loops[0]
-        el = I.elem_of(ents, L) if False else None
         m = [x for x in walk(r.c) if isinstance(x, Op) and (x.op.startswith("call:" + IL + "PTETableEntry.matches") or x.op == "m:matches")]
         ok = len(m) == 1 and m[0].args[-1] == pte and r.a.args[1] == m[0].args[0] and not L.breaks
     rep.check(ok, rule, "get_entry returns the first entry, in list order, whose matches(pte) is true, else None", "PTETable.get_entry",
               "for entry in self.entries: if entry.matches(pte): return entry", "table search is not a first-match scan over the entries in order: %r" % (r,))
-    writes = [e for e in I.events if e.func == IL + "PTETable.get_entry" and e.kind in ("dict_store", "attr_store", "append", "dictmut", "listmut")]
+    def pre_existing(e):
+        tgt = e.data[0]
+        o = I.heap.get(tgt.oid) if isinstance(tgt, Ref) else None
+        return o is None or getattr(o, "born_seq", 0) < seq0
+    writes = [e for e in I.events[seq0:] if e.kind in ("dict_store", "attr_store", "append", "extend", "dictmut", "listmut", "global_store", "class_store")
+              and pre_existing(e)]
     rep.check(not writes, rule, "the table search keeps no state between look-ups", "PTETable.get_entry", writes[0].node if writes else "get_entry",
               "the table search stores results between look-ups (%s): two PTEs that share a cache key get each other's entry" % (
                   writes[0].kind if writes else ""), node=writes[0].node if writes else None)
@@ -217,6 +223,7 @@ def check_matches(rep, prog):
     rep.check(bad is None, rule, "matches = pattern matches %08X of the PTE, or (reported error and pattern matches it with the reported flag cleared)",
               "PTETableEntry.matches", "matches", bad)
     # message
+    seq_m = len(I.events)
     msg = I.method(ent, "get_message", [pte])
     sfx = Const(" - PEL entry created")
     okm = isinstance(msg, Ite)
@@ -233,7 +240,7 @@ def check_matches(rep, prog):
         # base = fmt % params with fallback to fmt on any exception
         okb = isinstance(base, Ite) and isinstance(base.c, Sym) and base.c.kind == "exc" and base.a == fmtm and isinstance(base.b, Op) \
             and base.b.op in ("mod", "pct") and base.b.args[0] == fmtm
-        hs = [e for e in I.events if e.kind == "handler" and e.func == IL + "PTETableEntry.get_message"]
+        hs = [e for e in I.events[seq_m:] if e.kind == "handler"]
         okb = okb and any(h.data[1] in ("Exception", "BaseException", None) for h in hs)
         rep.check(okb, rule, "message = format % parameters, falling back to the raw format on any formatting error", "PTETableEntry.get_message",
                   "except Exception: message = self.message_format", "formatting errors of a table message are not contained by a broad handler "
@@ -245,8 +252,7 @@ def check_matches(rep, prog):
             if okp:
                 for (p_no, it) in zip((1, 4, 2, 3), vals):
                     wantb = binop("bitand", binop("rshift", pte, Const(8 * (4 - p_no))), Const(0xFF))
-                    got_t = resolve_byte(I, it[1])
-                    ee, env2, _ = equivalent(got_t, wantb, domain=dom) if got_t is not None else (False, None, 0)
+                    ee, env2, _ = equivalent(it[1], wantb, domain=dom)
                     okp = okp and ee
             rep.check(okp, rule, "parameter p is byte p (1-based, big-endian) of the 32-bit PTE", "PTETableEntry.get_message", "pte_bytes[p - 1]",
                       "message parameters are not the designated PTE bytes")
